@@ -19,49 +19,55 @@ Definition W_needs   := mkD 7 []  []  false 1 false false false true  true  true
 Definition W_arch    := mkD 8 []  []  false 1 false false false false false false false 0 (Rej SArch).   (* r_arch_raise *)
 Definition W_comb    := mkD 9 []  []  false 1 false false false false false false false 0 Ok.            (* a_comb *)
 
+(** ** the tree before the fix: commits ([compile_coded]): the five poisoning mechanisms *)
+
 (** (i) a design rejected inside coroutine lowering makes every later coroutine design fail *)
-Lemma refuted_statemachine :
-  outcome_of compile W_coro (run compile [W_sm]) = Crashed SIr /\ outcome_of compile W_coro init = Accepted [].
+Lemma before_fixes_statemachine :
+  outcome_of compile_coded W_coro (run compile_coded [W_sm]) = Crashed SIr
+  /\ outcome_of compile_coded W_coro init = Accepted [].
 Proof. vm_compute. split; reflexivity. Qed.
 
 (** (ii) a design rejected in a context: the second later compilation of a prefix design gets p0_1 *)
-Lemma refuted_block_stack :
-  outcome_of compile W_pfx (run compile [W_width; W_pfx]) = Accepted [[P 0; C 1]]
-  /\ outcome_of compile W_pfx init = Accepted [[P 0]].
+Lemma before_fixes_block_stack :
+  outcome_of compile_coded W_pfx (run compile_coded [W_width; W_pfx]) = Accepted [[P 0; C 1]]
+  /\ outcome_of compile_coded W_pfx init = Accepted [[P 0]].
 Proof. vm_compute. split; reflexivity. Qed.
 
 (** (iii) rejected under `with std.prefix`: later names are prefixed, the second use of a name crashes *)
-Lemma refuted_prefix_scope :
-  outcome_of compile W_pfxarch (run compile [W_inwith]) = Accepted [[P 4; P 0]]
-  /\ outcome_of compile W_pfxarch (run compile [W_inwith; W_pfxarch]) = Crashed SArch
-  /\ outcome_of compile W_pfxarch init = Accepted [[P 0]].
+Lemma before_fixes_prefix_scope :
+  outcome_of compile_coded W_pfxarch (run compile_coded [W_inwith]) = Accepted [[P 4; P 0]]
+  /\ outcome_of compile_coded W_pfxarch (run compile_coded [W_inwith; W_pfxarch]) = Crashed SArch
+  /\ outcome_of compile_coded W_pfxarch init = Accepted [[P 0]].
 Proof. vm_compute. repeat split; reflexivity. Qed.
 
 (** (iv) rejected inside a std.SequentialContext: a design that must be rejected is accepted *)
-Lemma refuted_current_context :
-  outcome_of compile W_needs (run compile [W_clk]) = Accepted []
-  /\ outcome_of compile W_needs init = Rejected SPrep.
+Lemma before_fixes_current_context :
+  outcome_of compile_coded W_needs (run compile_coded [W_clk]) = Accepted []
+  /\ outcome_of compile_coded W_needs init = Rejected SPrep.
 Proof. vm_compute. split; reflexivity. Qed.
 
 (** (v) rejected by its architecture: the same design is accepted the second time *)
-Lemma refuted_stale_template :
-  outcome_of compile W_arch (run compile [W_arch]) = Accepted []
-  /\ outcome_of compile W_arch init = Rejected SArch.
+Lemma before_fixes_stale_template :
+  outcome_of compile_coded W_arch (run compile_coded [W_arch]) = Accepted []
+  /\ outcome_of compile_coded W_arch init = Rejected SArch.
 Proof. vm_compute. split; reflexivity. Qed.
 
-Lemma history_independent_refuted :
-  (exists h d, outcome_of compile d (run compile h) = Crashed SIr /\ outcome_of compile d init = Accepted [])
-  /\ (exists h d n1 n2, outcome_of compile d (run compile h) = Accepted n1 /\ outcome_of compile d init = Accepted n2
-                        /\ n1 <> n2).
-Proof.
-  split.
-  - exists [W_sm], W_coro. exact refuted_statemachine.
-  - exists [W_width; W_pfx], W_pfx, [[P 0; C 1]], [[P 0]].
-    destruct refuted_block_stack as [A B]. repeat split; try assumption. discriminate.
-Qed.
+(** ** the current tree ([compile]): the same histories give the outcome of a fresh interpreter *)
+Lemma current_regressions :
+  outcome_of compile W_coro (run compile [W_sm]) = Accepted []
+  /\ outcome_of compile W_pfx (run compile [W_width; W_pfx]) = Accepted [[P 0]]
+  /\ outcome_of compile W_pfxarch (run compile [W_inwith]) = Accepted [[P 0]]
+  /\ outcome_of compile W_pfxarch (run compile [W_inwith; W_pfxarch]) = Accepted [[P 0]]
+  /\ outcome_of compile W_needs (run compile [W_clk]) = Rejected SPrep
+  /\ outcome_of compile W_arch (run compile [W_arch]) = Rejected SArch.
+Proof. vm_compute. repeat split; reflexivity. Qed.
 
-Lemma clean_invariant_refuted : exists h, cleanb (run compile h) = false.
-Proof. exists [W_sm]. vm_compute. reflexivity. Qed.
+(** the full-state invariant is false of the current tree: returned_blocks and _current_frame stay rebound after a
+    design rejected inside IR generation (harmless: [scratch_transparent], [history_independent]) *)
+Lemma clean_invariant_refuted :
+  exists h, cleanb (run compile h) = false /\ rcleanb (run compile h) = true
+            /\ g_rb (run compile h) = true /\ g_fr (run compile h) = true.
+Proof. exists [W_sm]. vm_compute. repeat split; reflexivity. Qed.
 
 (** * prefix events *)
 
@@ -128,33 +134,25 @@ Proof. intros [-> | ->]; discriminate. Qed.
 Lemma pe_ok_not_stale p : pe_ok p -> p <> PStale.
 Proof. intros [-> | ->]; discriminate. Qed.
 
-(** * the clean states *)
+(** * the (outcome-relevant) clean states *)
 
 Definition scratch_clean (g : gstate) : Prop :=
-  g_sm g = false /\ g_bs g = 0 /\ g_rb g = false /\ g_br g = false /\ g_co g = false /\ g_rs g = 0
-  /\ g_pf g = false /\ g_inl g = 0 /\ g_act g = false /\ g_cur g = false /\ g_fr g = false /\ g_eh g = 0
+  g_sm g = false /\ g_bs g = 0 /\ g_br g = false /\ g_co g = false /\ g_rs g = 0
+  /\ g_pf g = false /\ g_inl g = 0 /\ g_act g = false /\ g_cur g = false /\ g_eh g = 0
   /\ g_stale g = [] /\ g_tt g = [].
 
-Lemma clean_iff g : clean g <-> scratch_clean g /\ p_scope (g_pfx g) = [] /\ pe_ok (p_pe (g_pfx g)).
+Lemma rclean_iff g : rclean g <-> scratch_clean g /\ p_scope (g_pfx g) = [] /\ pe_ok (p_pe (g_pfx g)).
 Proof.
-  unfold clean, cleanb, scratch_clean, pe_ok.
+  unfold rclean, rcleanb, scratch_clean, pe_ok.
   destruct g as [sm bs [sc pe pt] rb br co rs pf inl act cur fr eh stale tt cache]; cbn.
   split.
   - intros H. repeat (apply andb_prop in H; destruct H as [H ?]).
-    destruct sm, rb, br, co, pf, act, cur, fr; try discriminate.
+    destruct sm, br, co, pf, act, cur; try discriminate.
     destruct bs, rs, inl, eh; try discriminate.
     destruct sc, stale, tt; try discriminate.
     destruct pe; try discriminate; intuition.
-  - intros ((-> & -> & -> & -> & -> & -> & -> & -> & -> & -> & -> & -> & -> & ->) & -> & [-> | ->]); reflexivity.
+  - intros ((-> & -> & -> & -> & -> & -> & -> & -> & -> & -> & -> & ->) & -> & [-> | ->]); reflexivity.
 Qed.
-
-(** fixed discipline: the IR stage writes nothing *)
-Lemma ir_stage_fixed_state d names g : fst (ir_stage true d names g) = g.
-Proof. unfold ir_stage. destruct (d_coro d && g_sm g); [reflexivity|]. destruct (d_verdict d) as [|[]]; reflexivity. Qed.
-
-Lemma ir_stage_outcome fx d names g g' :
-  g_sm g = g_sm g' -> snd (ir_stage fx d names g) = snd (ir_stage fx d names g').
-Proof. unfold ir_stage. intros ->. destruct (d_coro d && g_sm g'); [reflexivity|]. destruct (d_verdict d) as [|[]]; reflexivity. Qed.
 
 Lemma cur_after_fixed d f c : cur_after true d f c false = false.
 Proof. unfold cur_after. destruct (c && d_ctx_clk d), (f && negb c && d_clk_fail d), (d_clk_ok d); reflexivity. Qed.
@@ -183,27 +181,6 @@ Definition fixed_body (d : design) (p : pfx) : pfx * outcome :=
                   end)
         end
   end.
-
-Lemma compile_fixed_clean d g :
-  clean g ->
-  compile_fixed d g = (set_pfx (fst (fixed_body d (g_pfx g))) (set_cache (S (g_cache g)) g), snd (fixed_body d (g_pfx g))).
-Proof.
-  intros C. apply clean_iff in C. destruct C as (S & SC & PE).
-  destruct g as [sm bs [sc pe pt] rb br co rs pf inl act cur fr eh stale tt cache].
-  destruct S as (? & ? & ? & ? & ? & ? & ? & ? & ? & ? & ? & ? & ? & ?). cbn in *. subst.
-  assert (Dm : demote (mkPfx [] pe pt) = mkPfx [] pe pt) by (destruct PE as [-> | ->]; reflexivity).
-  unfold compile_fixed, compile_gen, fixed_body. cbn [g_act g_tt g_stale g_cache set_cache memb existsb g_pfx g_bs g_cur].
-  rewrite Dm. cbn [Nat.ltb Nat.leb negb].
-  destruct (run_events false (d_arch_pfx d) (mkPfx [] pe pt)) as [pa [names_a|]]; [|reflexivity].
-  destruct (is_rej (d_verdict d) SArch); [reflexivity|].
-  cbn [set_pfx g_sm g_bs g_rb g_br g_co g_rs g_pf g_inl g_act g_cur g_fr g_eh g_stale g_tt g_cache].
-  match goal with |- context [run_events false (d_ctx_pfx d) ?p0] => destruct (run_events false (d_ctx_pfx d) p0) as [pc rc] end.
-  rewrite !andb_true_r.
-  match goal with |- (if ?f then _ else _) = _ => destruct f eqn:F end.
-  - rewrite cur_after_fixed. reflexivity.
-  - rewrite cur_after_fixed. unfold ir_stage. cbn [g_sm set_cur set_pfx set_cache]. rewrite andb_false_r.
-    cbn [fst snd]. destruct (d_verdict d) as [|[]]; reflexivity.
-Qed.
 
 Lemma fixed_body_props d p :
   p_scope p = [] -> pe_ok (p_pe p) ->
@@ -265,36 +242,107 @@ Proof.
     cbn [fst snd]; rewrite demote_scope; repeat split; auto using demote_pe.
 Qed.
 
-Lemma fixed_step d g :
-  clean g -> clean (fst (compile_fixed d g)) /\ outcome_of compile_fixed d g = outcome_of compile_fixed d init.
+Lemma compile_rclean fi d g :
+  rclean g ->
+  exists rb fr,
+    compile_gen true fi d g =
+    (set_fr fr (set_rb rb (set_pfx (fst (fixed_body d (g_pfx g))) (set_cache (S (g_cache g)) g))),
+     snd (fixed_body d (g_pfx g))).
+Proof.
+  intros C. apply rclean_iff in C. destruct C as (S & SC & PE).
+  destruct g as [sm bs [sc pe pt] rb br co rs pf inl act cur fr eh stale tt cache].
+  destruct S as (? & ? & ? & ? & ? & ? & ? & ? & ? & ? & ? & ?). cbn in *. subst.
+  assert (Dm : demote (mkPfx [] pe pt) = mkPfx [] pe pt) by (destruct PE as [-> | ->]; reflexivity).
+  unfold compile_gen, fixed_body. cbn [g_act g_tt g_stale g_cache set_cache memb existsb g_pfx g_bs g_cur].
+  rewrite Dm. cbn [Nat.ltb Nat.leb negb].
+  destruct (run_events false (d_arch_pfx d) (mkPfx [] pe pt)) as [pa [names_a|]];
+    [|exists rb, fr; reflexivity].
+  destruct (is_rej (d_verdict d) SArch); [exists rb, fr; reflexivity|].
+  cbn [set_pfx g_sm g_bs g_rb g_br g_co g_rs g_pf g_inl g_act g_cur g_fr g_eh g_stale g_tt g_cache].
+  match goal with |- context [run_events false (d_ctx_pfx d) ?p0] => destruct (run_events false (d_ctx_pfx d) p0) as [pc rc] end.
+  rewrite !andb_true_r.
+  match goal with |- context [if ?f then _ else _] =>
+    match f with context [is_rej _ SPrep] => destruct f eqn:F end end.
+  - exists rb, fr. rewrite cur_after_fixed. reflexivity.
+  - rewrite cur_after_fixed. unfold ir_stage. cbn [g_sm set_cur set_pfx set_cache]. rewrite andb_false_r.
+    cbn [fst snd]. destruct (d_verdict d) as [|[]]; destruct fi; do 2 eexists; reflexivity.
+Qed.
+
+Lemma rclean_step fi d g :
+  rclean g ->
+  rclean (fst (compile_gen true fi d g))
+  /\ outcome_of (compile_gen true fi) d g = outcome_of (compile_gen true fi) d init.
 Proof.
   intros C. unfold outcome_of.
-  assert (CI : clean init) by reflexivity.
-  rewrite (compile_fixed_clean d g C), (compile_fixed_clean d init CI). cbn [fst snd].
-  apply clean_iff in C. destruct C as (S & SC & PE).
-  destruct (fixed_body_props d (g_pfx g) SC PE) as (A & B & E).
-  split; [|exact E].
-  apply clean_iff. destruct g; cbn in *. auto.
+  assert (CI : rclean init) by reflexivity.
+  destruct (compile_rclean fi d g C) as (rb & fr & E).
+  destruct (compile_rclean fi d init CI) as (rb0 & fr0 & E0).
+  rewrite E, E0. cbn [fst snd].
+  apply rclean_iff in C. destruct C as (S & SC & PE).
+  destruct (fixed_body_props d (g_pfx g) SC PE) as (A & B & EQ).
+  split; [|exact EQ].
+  apply rclean_iff. destruct g; cbn in *. auto.
 Qed.
 
-Lemma clean_invariant_fixed_from h : forall g, clean g -> clean (fold_left (step compile_fixed) h g).
+Lemma rclean_invariant_from fi h : forall g, rclean g -> rclean (fold_left (step (compile_gen true fi)) h g).
 Proof.
   induction h as [|d h IH]; intros g C; cbn; [assumption|].
-  apply IH. unfold step. apply fixed_step. assumption.
+  apply IH. unfold step. apply rclean_step. assumption.
 Qed.
 
-Theorem clean_invariant_fixed h : clean (run compile_fixed h).
-Proof. apply clean_invariant_fixed_from. reflexivity. Qed.
+(** the current tree *)
+Theorem relevant_clean_invariant h : rclean (run compile h).
+Proof. apply (rclean_invariant_from false). reflexivity. Qed.
 
-Theorem history_independent_fixed h d :
-  outcome_of compile_fixed d (run compile_fixed h) = outcome_of compile_fixed d init.
-Proof. apply fixed_step, clean_invariant_fixed. Qed.
+Theorem history_independent h d : outcome_of compile d (run compile h) = outcome_of compile d init.
+Proof. apply (rclean_step false), relevant_clean_invariant. Qed.
 
-(** * caches are transparent *)
+Theorem relevant_clean_step d g :
+  rclean g -> rclean (fst (compile d g)) /\ outcome_of compile d g = outcome_of compile d init.
+Proof. apply (rclean_step false). Qed.
 
-Theorem caches_transparent fx d g c :
-  snd (compile_gen fx d (set_cache c g)) = snd (compile_gen fx d g)
-  /\ set_cache 0 (fst (compile_gen fx d (set_cache c g))) = set_cache 0 (fst (compile_gen fx d g)).
+(** a tree that also restores the IR scratch variables would in addition keep the full state clean; the outcomes
+    are the same as those of the current tree *)
+Theorem history_independent_fixed h d : outcome_of compile_fixed d (run compile_fixed h) = outcome_of compile_fixed d init.
+Proof. apply (rclean_step true). apply (rclean_invariant_from true). reflexivity. Qed.
+
+Theorem current_equals_fixed_outcome h d : outcome_of compile d (run compile h) = outcome_of compile_fixed d (run compile_fixed h).
+Proof.
+  rewrite history_independent, history_independent_fixed. unfold outcome_of, compile, compile_fixed.
+  destruct (compile_rclean false d init eq_refl) as (? & ? & ->).
+  destruct (compile_rclean true d init eq_refl) as (? & ? & ->). reflexivity.
+Qed.
+
+(** * the two leaking variables and the caches are transparent (any discipline) *)
+
+Definition erase (g : gstate) : gstate := set_fr false (set_rb false g).
+
+Theorem scratch_transparent fx fi d g rb fr :
+  snd (compile_gen fx fi d (set_fr fr (set_rb rb g))) = snd (compile_gen fx fi d g)
+  /\ erase (fst (compile_gen fx fi d (set_fr fr (set_rb rb g)))) = erase (fst (compile_gen fx fi d g)).
+Proof.
+  destruct g as [sm bs pf0 rb0 br co rs pf inl act cur fr0 eh stale tt cache].
+  unfold compile_gen, set_fr, set_rb, erase;
+    cbn [g_act g_tt g_stale g_cache g_pfx g_bs g_cur g_sm g_rb g_br g_co g_rs g_pf g_inl g_fr g_eh set_cache].
+  destruct act; [split; reflexivity|].
+  destruct (memb (d_id d) tt); [split; reflexivity|].
+  destruct (memb (d_id d) stale); [split; reflexivity|].
+  destruct (run_events false (d_arch_pfx d) (demote pf0)) as [pa [names_a|]].
+  2:{ destruct fx; split; reflexivity. }
+  destruct (is_rej (d_verdict d) SArch).
+  { destruct fx; split; reflexivity. }
+  match goal with |- context [run_events ?se (d_ctx_pfx d) ?p0] => destruct (run_events se (d_ctx_pfx d) p0) as [pc rc] end.
+  match goal with |- context [if ?f then _ else _] =>
+    match f with context [is_rej _ SPrep] => destruct f end end.
+  - destruct fx; split; reflexivity.
+  - unfold ir_stage. cbn [g_sm set_cur set_pfx set_cache].
+    destruct (d_coro d && sm); [destruct fi; split; reflexivity|].
+    destruct (d_verdict d) as [|[]]; destruct fx, fi; split; reflexivity.
+Qed.
+
+Theorem caches_transparent fx fi d g c :
+  snd (compile_gen fx fi d (set_cache c g)) = snd (compile_gen fx fi d g)
+  /\ set_cache 0 (fst (compile_gen fx fi d (set_cache c g))) = set_cache 0 (fst (compile_gen fx fi d g)).
 Proof.
   destruct g as [sm bs pf0 rb br co rs pf inl act cur fr eh stale tt cache].
   unfold compile_gen, set_cache; cbn [g_act g_tt g_stale g_cache g_pfx g_bs g_cur g_sm g_rb g_br g_co g_rs g_pf g_inl g_fr g_eh].
@@ -310,27 +358,26 @@ Proof.
     match f with context [is_rej _ SPrep] => destruct f end end.
   - destruct fx; split; reflexivity.
   - unfold ir_stage. cbn [g_sm set_cur set_pfx].
-    destruct (d_coro d && sm); [destruct fx; split; reflexivity|].
-    destruct (d_verdict d) as [|[]]; destruct fx; split; reflexivity.
+    destruct (d_coro d && sm); [destruct fi; split; reflexivity|].
+    destruct (d_verdict d) as [|[]]; destruct fx, fi; split; reflexivity.
 Qed.
 
-
-(** * as coded: only rejections at architecture / PrepareAst / IR generation leave a clean state *)
+(** * the tree before the fixes: only rejections at architecture / PrepareAst / IR generation could poison *)
 
 Definition harmless (d : design) : bool :=
   negb (d_needs_ctx d) &&
   match d_verdict d with Ok | Rej SAnalysis | Rej SBackend => true | _ => false end.
 
-Lemma compile_coded_clean_harmless d g :
-  clean g -> harmless d = true -> (forall s, outcome_of compile d g <> Crashed s) ->
-  compile d g = compile_fixed d g.
+Lemma compile_coded_rclean_harmless d g :
+  rclean g -> harmless d = true -> (forall s, outcome_of compile_coded d g <> Crashed s) ->
+  compile_coded d g = compile d g.
 Proof.
-  intros C Hh NCr. apply clean_iff in C. destruct C as (S & SC & PE).
+  intros C Hh NCr. apply rclean_iff in C. destruct C as (S & SC & PE).
   destruct g as [sm bs [sc pe pt] rb br co rs pf inl act cur fr eh stale tt cache].
-  destruct S as (? & ? & ? & ? & ? & ? & ? & ? & ? & ? & ? & ? & ? & ?). cbn in *. subst.
+  destruct S as (? & ? & ? & ? & ? & ? & ? & ? & ? & ? & ? & ?). cbn in *. subst.
   unfold harmless in Hh. apply andb_prop in Hh. destruct Hh as [N V].
   destruct (d_needs_ctx d) eqn:NC; [discriminate|].
-  unfold outcome_of, compile, compile_fixed, compile_gen in *.
+  unfold outcome_of, compile, compile_coded, compile_gen in *.
   cbn [g_act g_tt g_stale g_cache set_cache memb existsb g_pfx g_bs g_cur Nat.ltb Nat.leb] in *.
   rewrite NC in NCr. rewrite NC.
   destruct (run_events false (d_arch_pfx d) (demote (mkPfx [] pe pt))) as [pa [names_a|]] eqn:RA.
@@ -343,10 +390,10 @@ Proof.
   all: unfold ir_stage; rewrite Vd; cbn [g_sm set_cur set_pfx]; rewrite andb_false_r; reflexivity.
 Qed.
 
-Theorem coded_harmless_preserves_clean d g :
-  clean g -> harmless d = true -> (forall s, outcome_of compile d g <> Crashed s) ->
-  clean (fst (compile d g)) /\ outcome_of compile d g = outcome_of compile_fixed d init.
+Theorem before_fixes_harmless_preserves_clean d g :
+  rclean g -> harmless d = true -> (forall s, outcome_of compile_coded d g <> Crashed s) ->
+  rclean (fst (compile_coded d g)) /\ outcome_of compile_coded d g = outcome_of compile d init.
 Proof.
-  intros C Hh NCr. unfold outcome_of. rewrite (compile_coded_clean_harmless d g C Hh NCr).
-  apply fixed_step. assumption.
+  intros C Hh NCr. unfold outcome_of. rewrite (compile_coded_rclean_harmless d g C Hh NCr).
+  apply relevant_clean_step. assumption.
 Qed.
